@@ -275,6 +275,10 @@ Section Foot.
                    ++ map (fun f => LFoot (f_label (fo_fn f))) sorted;
        s_warn := s_warn s |}.
 
+  (* docutils' Footnotes transform is external code: the pipeline takes it as a parameter; the
+     theorems assume  O_footnotes_xform : forall s, footnotes_xform s = docutils_footnotes s  *)
+  Variable footnotes_xform : fstate -> res fstate.
+
   (* ---- the transforms in priority order (docutils Transformer: sort by priority, stable) ---- *)
   Definition pipeline : list xform :=
     isort priority Z.leb (XFootnotes :: docutils_parser_transforms).
@@ -284,7 +288,7 @@ Section Foot.
     | XSortFootnotes =>
         Ok {| s_regs := sort_footnotes footnote_sort (s_regs s); s_manual := s_manual s; s_auto := s_auto s;
               s_layout := s_layout s; s_warn := s_warn s |}
-    | XFootnotes => docutils_footnotes s
+    | XFootnotes => footnotes_xform s
     | XUnreferencedFootnotesDetector => Ok (unreferenced s)
     | XCollectFootnotes => Ok (collect_footnotes footnote_sort footnote_transition s)
     | XResolveAnchorIds => Ok s
